@@ -7,6 +7,7 @@ CONSTANTS
   AsFound_ExclusionBySubstring = FALSE
   AsFound_DecorativeUntested = TRUE
   AsFound_DecorativeExcluded = FALSE
+  AsFound_TimeAxisFrozen = FALSE
 INVARIANT TypeOK
 INVARIANT C15_AcceptedIsSteady
 INVARIANT C15_JudgesExactlyNonExcluded
